@@ -1,6 +1,7 @@
 import HpxVerif.Lemmas.CoverLemmas
 import HpxVerif.Lemmas.ConeReal
 import HpxVerif.Props.C16
+import HpxVerif.Lemmas.CellExtent4
 
 set_option autoImplicit false   -- an unknown identifier in a statement is an error, never a new variable
 
@@ -85,5 +86,47 @@ theorem start_depth_table_regular :
       C16.dyHalvingLo (j + 2) 1 25 (Gen.smallerEdge2OpEdgeDistDyadic.getD (j + 2) (0, 0)) (Gen.smallerEdge2OpEdgeDistDyadic.getD (j + 3) (0, 0)) = true ∧
       C16.dyHalvingHi (j + 2) 1 10 (Gen.smallerEdge2OpEdgeDistDyadic.getD (j + 2) (0, 0)) (Gen.smallerEdge2OpEdgeDistDyadic.getD (j + 3) (0, 0)) = true) :=
   C16.table_halving.1
+
+
+/-! ## the envelope hypothesis H1 discharged in the equatorial region: an unconditional no-miss theorem
+
+`InCellEq d h q` (`Lemmas/CellExtent3.lean`): `(d, h)` is a cell whose centre lies strictly inside the equatorial band and
+`q` is a position of its closed diamond.  For every cone with `|lat| + r` below the transition latitude the list of radii
+the crate computes (`largest_center_to_vertex_distances_with_radius`) satisfies H1 on the cells that matter, so the cone
+scheme over ℝ misses nothing - no geometric hypothesis left (the farthest point of an equatorial cell from its centre is a
+vertex: `eqr_cell_extent`, by concavity of the cosine of the distance along straight segments of the projection plane; the
+envelope dominates the vertex distances: C16). -/
+
+section EquatorialGeometry
+open Hpx Hpx.Hash Hpx.C2V Hpx.C2VReal Hpx.Proj Hpx.Cover Hpx.CellReal Hpx.EnvelopeReal Hpx.TopoLift Hpx.CellExtent Real
+
+/-- **`cone_no_miss_equatorial_gen`** (ℝ, release profile): `cone_no_miss_equatorial` for EVERY starting depth
+    `ds ≤ target ≤ 29` (large cones: `ds = 0, 1`).  Cone `(lon, lat, r)` with `0 ≤ r`, `|lat| + r < tl`; `dists` the list of
+    `largest_center_to_vertex_distances_with_radius(ds, target + 1, lon, lat, r)`.  If the descent of the model from a
+    start cell `root` returns `out`, every position `q` of the cone that lies in `root`, a strictly equatorial cell, lies
+    in a cell of `out`. -/
+theorem cone_no_miss_equatorial (cfg : Cfg) (lon lat r : ℝ) (hr : 0 ≤ r) (hA : |lat| + r < tl) (ds target : ℕ)
+    (hdt : ds ≤ target) (ht : target ≤ 29) (dists : List ℝ)
+    (hdists : largestC2VsWithRadius false ds (target + 1) lon lat r = some dists) (fuel root : ℕ)
+    (out : List Bmoc.Cell)
+    (h : coverRec target (coneClassifier (α := ℝ) cfg lon lat (Num.cos lat) (dists.map (toShsMinMax r))) fuel ds root 0
+      = some out)
+    (q : ℝ × ℝ) (hq : InCellEq ds root q) (hin : adist (lon, lat) q ≤ r) :
+    ∃ c ∈ out, InCellEq c.depth c.hash q :=
+  Hpx.CellExtent.cone_no_miss_equatorial_gen cfg lon lat r hr hA ds target hdt ht dists hdists fuel root out h q hq hin
+
+/-- **`H1_equatorial_cone`**: the envelope hypothesis `H1` of `Cover.cone_scheme_no_miss` with
+    `inCell d h q := InCellEq d h q ∧ adist (lon, lat) q ≤ r` (positions of strictly equatorial cells that are in the cone)
+    and `dists` the list computed by `largest_center_to_vertex_distances_with_radius(ds, target + 1, lon, lat, r)`
+    (release profile), for every cone with `|lat| + r < tl` and every `ds ≤ target ≤ 29` (depths 0 and 1 included). -/
+theorem h1_equatorial_cone (cfg : Cfg) (lon lat r : ℝ) (hA : |lat| + r < tl) (ds target : ℕ) (hdt : ds ≤ target)
+    (ht : target ≤ 29) (dists : List ℝ)
+    (hdists : largestC2VsWithRadius false ds (target + 1) lon lat r = some dists) :
+    ∀ d h c D q, ds ≤ d → Hash.center (α := ℝ) cfg d h = some c → dists[d - ds]? = some D →
+      (InCellEq d h q ∧ adist (lon, lat) q ≤ r) → adist c q ≤ D :=
+  Hpx.CellExtent.H1_equatorial_cone cfg lon lat r hA ds target hdt ht dists hdists
+
+
+end EquatorialGeometry
 
 end Hpx.C05
